@@ -49,6 +49,7 @@ type Contract struct {
 	Inline      bool // callers inline the body even though a contract exists
 	NoInline    bool // never inline: callers use contract or havoc
 	NonBlocking bool // the function cannot block (time does not pass across a call to it); checked for verified functions
+	Immutable   []string // struct types whose objects are never written once they exist at the start of the current loop iteration
 	Dispatch    bool // interface method: resolved per call by case split over the module's implementing types
 	ParamNames  []string
 	Asserts     []*Clause // (unused)
@@ -111,6 +112,7 @@ type Specs struct {
 	Pures     map[string]*PureFn // key: pkgpath + "." + name, also bare name if unique
 	Lemmas    map[string]*Lemma
 	Globals   []*GlobalFact
+	Ghosts    map[string]string // ghost state variables: name -> "bool" | "int"
 	Files     []string
 	Errors    []string
 }
@@ -119,7 +121,7 @@ func newSpecs() *Specs {
 	return &Specs{Contracts: map[string]*Contract{}, Pures: map[string]*PureFn{}, Lemmas: map[string]*Lemma{}}
 }
 
-var keywordRe = regexp.MustCompile(`^(package|func|requires|ensures|modifies|loop|trusted|inline|noinline|dispatch|dyncall|nonblocking|maypanic|pure|uninterp|lemma|global|region|from|to|params|callsite|opaque|reveal)\b`)
+var keywordRe = regexp.MustCompile(`^(package|func|requires|ensures|modifies|loop|trusted|inline|noinline|dispatch|dyncall|nonblocking|immutable|ghost|maypanic|pure|uninterp|lemma|global|region|from|to|params|callsite|opaque|reveal)\b`)
 
 // expandKey turns "(*T).M" / "(T).M" / "F" into the ssa qualified name for pkgPath.
 // Keys that already contain a '/' or a '.' before the first '(' are taken as written.
@@ -413,6 +415,14 @@ func (sp *Specs) ParseFile(path string, defaultPkg string) {
 			if cur != nil {
 				cur.NonBlocking = true
 			}
+		case "immutable":
+			if cur != nil {
+				for _, n := range strings.Split(rest, ",") {
+					if n = strings.TrimSpace(n); n != "" {
+						cur.Immutable = append(cur.Immutable, n)
+					}
+				}
+			}
 		case "maypanic":
 			if cur != nil {
 				cur.MayPanic = true
@@ -514,6 +524,17 @@ func (sp *Specs) ParseFile(path string, defaultPkg string) {
 			}
 			curLemma = &Lemma{Name: strings.TrimSpace(rest[:op]), PkgPath: pkg, Params: params, File: path, Line: rc.line}
 			sp.Lemmas[curLemma.Name] = curLemma
+		case "ghost":
+			// ghost <name> bool|int : a ghost state variable, written $name in clauses
+			f := strings.Fields(rest)
+			if len(f) != 2 || (f[1] != "bool" && f[1] != "int") {
+				sp.errf(path, rc.line, "ghost needs '<name> bool|int'")
+				continue
+			}
+			if sp.Ghosts == nil {
+				sp.Ghosts = map[string]string{}
+			}
+			sp.Ghosts[f[0]] = f[1]
 		case "global":
 			if c := mkClause(rest, rc.line); c != nil {
 				sp.Globals = append(sp.Globals, &GlobalFact{pkg, c})
